@@ -36,6 +36,14 @@ func PACEInfo(oid string, version int, paramID *big.Int) []byte {
 	return der.Seq(der.OID(oid), der.IntFromInt64(int64(version)), optInt(paramID))
 }
 
+// PACEDomainParameterInfo ::= SEQUENCE { protocol (id-PACE-DH-GM / -ECDH-GM / -DH-IM / -ECDH-IM / -ECDH-CAM, without a
+// cipher arc), domainParameter AlgorithmIdentifier, parameterId INTEGER OPTIONAL } - here with standardised
+// domain parameters referenced by id.
+func PACEDomainParameterInfo(oid string, stdParamID int, paramID *big.Int) []byte {
+	alg := der.Seq(der.OID(OidStdDomainParams), der.IntFromInt64(int64(stdParamID)))
+	return der.Seq(der.OID(oid), alg, optInt(paramID))
+}
+
 // ChipAuthenticationInfo ::= SEQUENCE { protocol, version INTEGER (1), keyId INTEGER OPTIONAL }
 func ChipAuthInfo(oid string, version int, keyID *big.Int) []byte {
 	return der.Seq(der.OID(oid), der.IntFromInt64(int64(version)), optInt(keyID))
